@@ -18,6 +18,7 @@ pub fn to_termcolor_spec(style: anstyle::Style) -> termcolor::ColorSpec {
     style.set_dimmed(effects.contains(anstyle::Effects::DIMMED));
     style.set_italic(effects.contains(anstyle::Effects::ITALIC));
     style.set_underline(effects.contains(anstyle::Effects::UNDERLINE));
+    style.set_strikethrough(effects.contains(anstyle::Effects::STRIKETHROUGH));
     style
 }
 
